@@ -82,3 +82,36 @@ pub fn exec_case(data: &[u8]) -> Result<&'static str, String> {
     }
     Ok("agree")
 }
+
+/// One case of one generated-input family of a property, decoded and judged exactly as the
+/// proptest-driven engine does it (`Property::run`), so a libFuzzer campaign explores the same
+/// case space with coverage feedback from yarel's code. A failure whose signature is a recorded
+/// finding of that property is tolerated and counted by its label; anything else is a violation.
+pub fn prop_case(id: &str, family: &str, data: &[u8]) -> Result<&'static str, String> {
+    use crate::engine::{known_match, load_known, CaseCtx, Known, Property, Tier, Verdict};
+    use std::collections::BTreeMap;
+    thread_local! {
+        static PROP: std::cell::RefCell<Option<(String, Box<dyn Property>, Vec<Known>)>> = std::cell::RefCell::new(None);
+    }
+    PROP.with(|cell| {
+        let mut slot = cell.borrow_mut();
+        if slot.as_ref().map(|(i, _, _)| i != id).unwrap_or(true) {
+            let prop = crate::props::all().into_iter().find(|p| p.id() == id).ok_or_else(|| format!("unknown property {}", id))?;
+            *slot = Some((id.to_string(), prop, load_known(id)));
+        }
+        let (_, prop, known) = slot.as_ref().unwrap();
+        let mut labels = BTreeMap::new();
+        let mut ctx = CaseCtx { family, bytes: data, labels: &mut labels, strict: false, tier: Tier::Thorough };
+        match prop.run(&mut ctx) {
+            Verdict::Pass { .. } => Ok("pass"),
+            Verdict::Discard(_) => Ok("discard"),
+            Verdict::Fail { sig, detail } => {
+                if known_match(known, &sig).is_some() {
+                    Ok("known-finding")
+                } else {
+                    Err(format!("{} oracle: {}: {}\n{}", id, sig, detail, prop.render(family, data)))
+                }
+            }
+        }
+    })
+}
